@@ -1,7 +1,7 @@
 PROP = dict(
     id="C19",
     lean_modules=["TongoProofs.C19"],
-    gen=["TonConnectConsts"],
+    gen=["TonConnectConsts", "TonConnectMsg"],
     # the model IS the specification here: the signed digest layout, the MAC/expiry rule of the payload, the accept/
     # reject decision and the key returned are what the property states
     spec_ops=("tc.msg", "tc.payload", "tc.parse", "tc.check", "tc.domain", "prim.hmac256", "prim.sha256"),
@@ -29,26 +29,61 @@ PROP = dict(
         "Ed25519 verdicts are supplied by the harness from crypto/ed25519 (not re-implemented in Lean)",
     ],
     assumptions=[
-        "signature correctness of Ed25519 (premise of accept_honest); unforgeability and collision-freedom of SHA-256 are "
-        "what 'a proof signed for other address/domain/timestamp/payload or by another key is rejected' reduces to "
-        "(message_binds, message_binds_digest) - they are assumptions, exercised with real Ed25519 in every run",
+        "IDEAL SIGNATURE SCHEME (Sig.Ideal, lean/TongoProofs/Lemmas/SigIdeal.lean) - a local hypothesis of every negative "
+        "theorem: SigCorrect; SigUnforgeable (verify pk m s = true -> exists sk, pk = pub sk and s = sign sk m); SigBinds (a "
+        "signature determines its signer's public key and, on 32-byte digests, the digest). Real Ed25519 satisfies them only "
+        "up to negligible probability against bounded adversaries; the same negatives are exercised with crypto/ed25519 on "
+        "every run. The accept-all verifier does NOT satisfy them (theorem Sig.accept_all_violates); a toy scheme does "
+        "(Sig.toy_ideal), so the theorems are not vacuous",
+        "CollisionFree SHA-256 on the byte strings compared (inner and outer message strings of the two messages; the "
+        "representations of the cells of the supplied and of the genuine state init) - local hypotheses, with a non-vacuity example",
+        "unforgeability of the 16-byte truncated HMAC-SHA-256 of the payload under the server secret: the theorems say a "
+        "payload whose MAC does not match is refused (reject_payload_forged, reject_proof_with_bad_payload); that nobody "
+        "without the secret can make it match is NOT a theorem",
+        "the substituted-field theorems assume the presented address decodes to 32 bytes: convertTonProofMessage puts the "
+        "hex-decoded address into the signed message WITHOUT a length check while ton.ParseAccountID left-pads a short "
+        "hex part to 32 bytes for the lookup; with a shorter address the byte layout is not injective (documented, no "
+        "practical forgery found: it needs the victim's signature over a colliding layout)",
+        "check_total is about CheckProof's own logic: boc.DeserializeBocBase64, the executor / abi.GetPublicKey and the two "
+        "callbacks are represented by their results (error / roots, failure / integer, verdicts); a panic inside them "
+        "(C07/C08 totality) is outside the statement and not composed",
+        "cells are hashed with the level-0 formula Cell.hashO = Go's Cell.Hash on trees of level-0 non-pruned cells "
+        "(C15 hash_model_is_cell_hash); supplied state inits containing pruned branches / cells of higher level are outside "
+        "the model (hand-tested: rejected on both sides), and the theorems about an attacker-supplied state init assume a "
+        "tree of ordinary cells (Cell.wfOrd)",
         "time.Since is read once per check and is an input of the model (nanoseconds); timestamps |t| < 2^62 (no Duration "
         "saturation modelled); boundary behaviour at exactly the lifetime is a theorem and is replayed on the real clock",
         "ton.ParseAccountID is modelled on strings with exactly one colon (the only ones convertTonProofMessage lets through)",
         "state-inits with a library dictionary are outside the modelled fragment (answer 'unmodelled', never generated)",
+        "the domain and payload callbacks are opaque verdicts of the model (Env.domainOk / payloadOk); StaticDomain and the "
+        "server's own CheckPayload are modelled separately and composed in reject_domain_static / reject_proof_with_bad_payload",
     ],
-    partial=[],
+    partial=[
+        "'accepted ONLY for the key controlling the address' is proved CONDITIONALLY on the ideal signature scheme and "
+        "collision-freedom (reject_foreign_signer, reject_substituted_address / _domain / _timestamp / _payload, "
+        "reject_stateinit_of_other_key, accepted_was_signed): no unconditional or computational (game-based) statement",
+        "the get-method path trusts the executor's answer: that the key returned by get_public_key IS the key controlling "
+        "the account is the blockchain's semantics, outside the model; the state-init path is proved "
+        "(stateinit_for_address_has_owner_key) for the wallet data layouts of the known versions",
+    ],
     level_text="Theorems for all inputs about the Lean model of CheckProof: an honest proof (CreateSignedProof) for any "
                "wallet version with a known code hash is accepted and yields the wallet key, via the get-method or via the "
-               "state-init (signature correctness assumed); each rejection clause (payload refused / MAC mismatch / payload "
-               "expired / proof expired with strict boundary / domain / undecodable fields / state-init hash mismatch / "
-               "unknown or key-less wallet code) is proved; the signed byte layout is injective in (workchain, address, "
-               "domain, timestamp, payload), so substitutions change the digest unless SHA-256 collides; CheckProof and "
-               "ParseStateInit never panic and only hand 32-byte keys to ed25519.Verify (false before the repairs: negation "
-               "proved on a witness and replayed on Go). The model is tied to the Go code by exact correspondence of digest, "
-               "payload verdicts, ParseStateInit and CheckProof outcomes on every run, with real Ed25519/HMAC.",
-    level_note="trusted: Lean kernel, harness incl. stub executor, validated SHA-256/HMAC primitives; assumptions: Ed25519 "
-               "unforgeability, SHA-256 collision-freedom",
+               "state-init (signature correctness assumed). Decision-logic rejections proved outright: payload refused / MAC "
+               "mismatch / payload expired (composed with the server's CheckPayload) / proof expired with strict boundary / "
+               "domain / undecodable fields / state-init hash mismatch / unknown or key-less wallet code. CRYPTOGRAPHIC "
+               "rejections proved UNDER the ideal signature scheme Sig.Ideal (correct + unforgeable + binding) and "
+               "CollisionFree SHA-256: whatever is accepted was signed by a secret key of the returned key over the digest of "
+               "the presented fields (accepted_was_signed); a proof signed by another key than the one controlling the "
+               "account is rejected (reject_foreign_signer); a signature made over other address / workchain / domain / "
+               "timestamp / payload is rejected (reject_substituted_*, through the injective byte layout message_binds); a "
+               "supplied state init that hashes to the account address holds the owner's key, so a state init of another key "
+               "plus that key's signature is rejected (reject_stateinit_of_other_key). The accept-all verifier is excluded by "
+               "the hypotheses (accept_all_violates), a toy ideal scheme and a collision-free 32-byte hash instantiate them. "
+               "CheckProof's own logic and ParseStateInit never panic and only hand 32-byte keys to ed25519.Verify (false "
+               "before the repairs: negation proved on a witness and replayed on Go). The model is tied to the Go code by exact "
+               "correspondence of digest, payload verdicts, ParseStateInit and CheckProof outcomes on every run, with real Ed25519/HMAC.",
+    level_note="trusted: Lean kernel, harness incl. stub executor, validated SHA-256/HMAC primitives; IDEALISATIONS (hypotheses "
+               "of the negative theorems): ideal signature scheme, SHA-256 collision-freedom; assumption: HMAC unforgeability",
     technique="decision-logic model + case analysis proofs, parse/print round-trip lemmas, injectivity of fixed-width "
               "encodings, differential correspondence with real crypto, direct property oracles (incl. a zero-key forgery)",
 )
